@@ -85,9 +85,18 @@ func ChildMain(args []string) {
 			switch {
 			case f[0] == "scn" && len(f) == 3:
 				seed, _ := strconv.ParseInt(f[2], 10, 64)
-				sc := GenW(f[1], seed)
-				h := RunW(ChildServer(), sc)
-				o.Desc, o.Viol, o.Kinds, o.N = sc.Describe(), h.Viol, h.Kinds, h.NCalls
+				var h *WHist
+				desc := ""
+				switch f[1] {
+				case "reuse":
+					h, desc = RunReuse(ChildServer(), seed), "witness of finding serial-reuse"
+				case "noread":
+					h, desc = RunNoRead(ChildServer(), seed), "witness of finding blocked-write"
+				default:
+					sc := GenW(f[1], seed)
+					h, desc = RunW(ChildServer(), sc), sc.Describe()
+				}
+				o.Desc, o.Viol, o.Kinds, o.N = desc, h.Viol, h.Kinds, h.NCalls
 				if h.Searchable() {
 					o.Req = h.Request()
 				} else {
